@@ -745,3 +745,8 @@ fire("c20-slice-augassign-on-index-data", "C20", TERMS,
      "            data = self.slice.start + self.slice.step * index.data\n            return type(index)(data, index.inputs, self.output.dtype)",
      "            data = index.data\n            if self.slice.step != 1:\n                data = data * self.slice.step\n            if self.slice.start != 0:\n                data += self.slice.start\n            return type(index)(data, index.inputs, self.output.dtype)",
      "R20.3", "Slice.eager_subs")
+
+silent("c07-s-op-reduce-copies-defaults", "C07", OP,
+       "        return apply, (type(self), (), self.defaults)", "        params = dict(self.defaults)\n        return apply, (type(self), (), params)")
+fire("c07-op-reduce-drops-falsy-params", "C07", OP,
+     "        return apply, (type(self), (), self.defaults)", "        params = {k: v for k, v in self.defaults.items() if v}\n        return apply, (type(self), (), params)", "R07.6", "Op.__reduce__")
